@@ -328,6 +328,7 @@ PROPS["C15"] = {
           tiers=("quick", "thorough") if (a, b) == (90000, 48000) else ("thorough",))
         for (a, b) in [(90000, 48000), (48000, 90000), (90000, 8000), (44100, 90000)]
     ] + [
+        R("sender-report", "pkg/rtpsender", "pkg/rtpsender", ["ZzC15SenderReport"], quick_params={"K": 3}, thorough_params={"K": 5}),
         R("ntp-roundtrip", "pkg/ntp", "pkg/ntp", ["ZzC15NTPRoundTrip"], flags={"solver": "cvc5-int", "fpreal": True, "workers": 2, "qtimeout": 300000}),
     ] + [
         R("packetntp-%d" % r, "pkg/rtpreceiver", "pkg/rtpreceiver", ["ZzC15PacketNTP"], params={"RATE": r},
